@@ -409,12 +409,11 @@ Definition hit (st : state) (r a k len : N) (fuel : nat) : state * option bytes 
   end.
 
 (* synthetic streams (the same recurrences are used by the origin stub of the check) *)
-Definition body_step (v : N) (s : N * N * bytes) : N * N * bytes :=
-  let '(a, b, acc) := s in
-  let byte := N.land (a * 3 + b * 7 + v * 11) 255 in
+Definition body_step (s : N * N * bytes) : N * N * bytes :=
+  let '(a, x, acc) := s in
   let a' := a + 1 in
-  if a' =? 251 then (0, (if b + 1 =? 241 then 0 else b + 1), byte :: acc) else (a', b, byte :: acc).
-Definition mk_body (v n : N) : bytes := rev (snd (N.iter n (body_step v) (0, 0, []))).
+  if a' =? 251 then (0, x + 10, N.land x 255 :: acc) else (a', x + 3, N.land x 255 :: acc).
+Definition mk_body (v n : N) : bytes := rev_append (snd (N.iter n body_step (0, v * 11, []))) [].
 
 Definition fillN (n c : N) : bytes := N.iter n (fun l => c :: l) [].
 Definition mk_hdr (hlen : N) : bytes := fillN (hlen - 4) 104 ++ [13; 10; 13; 10].
